@@ -330,28 +330,32 @@ impl RtpsReaderProxy {
       );
   }
 
-  pub fn mark_frags_requested(&mut self, seq_num: SequenceNumber, frag_nums: &FragmentNumberSet) {
+  // frag_count is the number of fragments in the sample, as the Writer
+  // fragments it. Requests for fragment numbers outside 1..=frag_count are
+  // ignored.
+  pub fn mark_frags_requested(
+    &mut self,
+    seq_num: SequenceNumber,
+    frag_nums: &FragmentNumberSet,
+    frag_count: u32,
+  ) {
+    let frag_count = frag_count as usize;
     let req_set = self
       .frags_requested
       .entry(seq_num)
-      .or_insert_with(|| BitVec::with_capacity(64)); // default capacity out of hat
-
-    if let Some(max_fn_requested) = req_set.iter().next_back() {
-      // allocate more space if needed
-      let max_fn_requested = usize::from(max_fn_requested);
-      if max_fn_requested > req_set.len() {
-        let growth_need = max_fn_requested - req_set.len();
-        req_set.grow(growth_need, false);
+      .or_insert_with(|| BitVec::from_elem(frag_count, false));
+    if req_set.len() < frag_count {
+      req_set.grow(frag_count - req_set.len(), false);
+    }
+    for f in frag_nums.iter() {
+      let f = usize::from(f);
+      // FragmentNumbers start at 1
+      if (1..=frag_count).contains(&f) {
+        req_set.set(f - 1, true);
       }
-      for f in frag_nums.iter() {
-        // -1 because FragmentNumbers start at 1
-        req_set.set(usize::from(f) - 1, true);
-      }
-    } else {
-      warn!(
-        "mark_frags_requested: Empty set in NackFrag??? reader={:?} SN={:?}",
-        self.remote_reader_guid, seq_num
-      );
+    }
+    if req_set.none() {
+      self.frags_requested.remove(&seq_num);
     }
   }
 
